@@ -1070,6 +1070,19 @@ coap_oscore_decrypt_pdu(coap_session_t *session,
       rcp_ctx = association->recipient_ctx;
       osc_ctx = rcp_ctx->osc_ctx;
       snd_ctx = osc_ctx->sender_context;
+      if (session->b_2_step == COAP_OSCORE_B_2_NONE && osc_size > 0 &&
+          (((osc_value[0] & 0x08) != 0 &&
+            !coap_binary_equal(&cose->key_id, rcp_ctx->recipient_id)) ||
+           ((osc_value[0] & 0x10) != 0 &&
+            (osc_ctx->id_context == NULL ||
+             !coap_binary_equal(&cose->kid_context, osc_ctx->id_context))))) {
+        /* kid / kid context are not those of the context the request used */
+        coap_log_warn("OSCORE: OSCORE Option of response does not match Security Context.\n");
+        coap_handle_event_lkd(session->context,
+                              COAP_EVENT_OSCORE_DECODE_ERROR,
+                              session);
+        goto error;
+      }
 #if COAP_CLIENT_SUPPORT
       sent_pdu = association->sent_pdu;
       if (session->b_2_step != COAP_OSCORE_B_2_NONE) {
